@@ -1,6 +1,7 @@
 package main
 
 import (
+	"reflect"
 	"errors"
 	"fmt"
 	"github.com/advancedclimatesystems/gonnx/onnx"
@@ -28,7 +29,7 @@ func gateCall(name string, ins []tensor.Tensor) (out string) {
 	}
 	// the gate looks at presence and element type only: the same list with every tensor replaced by a
 	// tensor of the same element type and another shape (zero-size ones included) must be judged alike
-	for _, shp := range [][]int{{0}, {2, 0}, {1, 1, 1, 1, 1, 2}} {
+	for _, shp := range [][]int{{}, {0}, {2, 0}, {1, 1, 1, 1, 1, 2}} {
 		alt := make([]tensor.Tensor, len(ins))
 		ok := true
 		for i, t := range ins {
@@ -41,6 +42,10 @@ func gateCall(name string, ins []tensor.Tensor) (out string) {
 						ok = false
 					}
 				}()
+				if len(shp) == 0 { // a rank-0 tensor of that element type
+					alt[i] = tensor.New(tensor.FromScalar(reflect.Zero(t.Dtype().Type).Interface()))
+					return
+				}
 				alt[i] = tensor.New(tensor.Of(t.Dtype()), tensor.WithShape(shp...))
 			}()
 		}
